@@ -609,8 +609,15 @@ class C14(Prop):
           'with oracle-only primitives, which have no model part); a stream of constrained multi-choices with 4-7 '
           'conflicting parents (retry / last-resort paths of _merge_multi_choice, measured per run); Proportional '
           'with tiny / zero / equal weights and fractional n; a driver-level stream (Evolution, regularized_evolution, '
-          'hill_climb, nsga2 for 8-14 propose/feedback rounds with pass-through reproduction stages: no evaluated '
-          'DNA object may change or be proposed again); permutation points of size 4-7 for Order / PartiallyMapped / '
+          'hill_climb, nsga2 for 8-14 propose/feedback rounds with pass-through, scheduled (`with_prob(schedule)`, '
+          '`mutator * schedule`) and sometimes empty reproduction stages: no evaluated DNA object may change or be '
+          'proposed again; all but nsga2 also compared round by round - DNA, proposal id, generation, initial flag, '
+          'counters, error - with the Lean driver model fed the recorded draws of the init generator and every stage); '
+          'seed=None (documented: the global `random` module) for ~6 % of the expressions and ~10 % of the algorithms: '
+          'no model part, two runs after the same `random.seed` must agree; '
+          'seed 0 is a first-class seed: about a third of the seeded objects of an expression and a quarter of the '
+          'driver-level algorithms are constructed with seed=0, and every case is run twice under different global '
+          '`random` states; permutation points of size 4-7 for Order / PartiallyMapped / '
           'Cycle; `where` filters of a closed family on Uniform / Swap; step-driven scalars (STEP, + - * // %) in '
           'the integer parameters, in `with_prob` and `KPoint.k`, incl. scalars.StepWise; `where.Any(k)`, k in 0-9, for '
           'the permutation recombinators; each case run at a step 0-9, schedule cases also after a warm-up at the '
@@ -626,7 +633,9 @@ class C14(Prop):
       'Operation.__call__ that snapshots inputs/outputs of every primitive call',
       'modelled, not verified: every primitive and combinator is a hand-written Lean function tied by '
       'correspondence; `where` filters other than ALL, user Lambda operations, global state, step-dependent '
-      'scalars and custom decision points are outside the model',
+      'scalars and custom decision points are outside the model; the driver-level model covers '
+      'population_init=(pg.geno.Random(seed), n) with alternating propose/feedback (no parallel proposals, '
+      'no recover(), no StopIteration from the initializer)',
       'oracle_only (run on the real code under the property oracle, not in the Lean model): '
       + ', '.join(ORACLE_ONLY),
   ]
@@ -731,8 +740,19 @@ class C14(Prop):
 
     def stage():
       k = r.weighted([(3, 'mut'), (2, 'swap'), (2, 'identity'), (3, 'prob0'), (2, 'never'), (2, 'prob-half'),
-                      (1, 'if-len')])
+                      (1, 'if-len'), (2, 'prob-sched'), (1, 'repeat-sched'), (1, 'empty'), (2, 'twice')])
       mut = ['prim', 'mutUniform']
+      if k == 'prob-sched':
+        # the probability is a schedule of the step the driver passes (num_proposals)
+        return ['choice', [[mut, ExprGen(r, 0).sched01()]], None]
+      if k == 'repeat-sched':
+        # `mutator * schedule`: no child at all on some steps ('There is no child reproduced')
+        return ['repeat', mut, ['sched', ['mod', ['step'], ['c', r.randint(3, 5)]]]]
+      if k == 'twice':
+        # the pipeline returns each new child twice (`op >> (Identity() + Identity())`): F390
+        return ['seq', mut, ['concat', ['identity'], ['identity']]]
+      if k == 'empty':
+        return ['cond', ['lenGt', r.randint(0, 2)], ['prim', 'selFirst', 0], mut]
       if k == 'mut':
         return mut
       if k == 'swap':
@@ -763,9 +783,12 @@ class C14(Prop):
       algo = ['hill_climb', stage(), r.randint(1, 2), r.randint(1, 2)]
     else:
       algo = ['nsga2', stage(), r.randint(2, 3)]
-    return {'kind': 'evolve', 'spec': spec, 'algo': algo, 'rounds': r.randint(8, 14),
+    case = {'kind': 'evolve', 'spec': spec, 'algo': algo, 'rounds': r.randint(8, 14),
             'rewards': [r.randint(-3, 6) for _ in range(7)], 'seed': r.below(1 << 30),
             'pop': [], 'expr': ['identity']}
+    if r.chance(0.1):
+      case['noseed'] = True
+    return case
 
   def gen_case(self, rng):
     r = rng.fork()
@@ -784,7 +807,10 @@ class C14(Prop):
     e, _ = g.expr(r.weighted([(1, 0), (3, 1), (5, 2), (5, 3), (4, 4)]))
     if mode == 'sloppy' and r.chance(0.3) and pop:
       pop[r.below(len(pop))]['fit'] = None
-    return {'spec': spec, 'pop': pop, 'expr': e, 'seed': r.below(1 << 30), 'step': r.below(10)}
+    case = {'spec': spec, 'pop': pop, 'expr': e, 'seed': r.below(1 << 30), 'step': r.below(10)}
+    if r.chance(0.06):
+      case['noseed'] = True      # every seed is None: the operators share the global `random` module
+    return case
 
   # -- real objects ------------------------------------------------------------------------
   def cached_spec(self, s):
@@ -821,7 +847,13 @@ class C14(Prop):
     h = e[0]
 
     def seed():
+      # 0 is a seed like any other: about a third of the seeded objects of an expression get it
       ctx['n'] += 1
+      if ctx.get('noseed'):
+        return None       # seed=None: the operator is documented to draw from the global `random` module
+      if (ctx['seed'] // 7 + ctx['n']) % 3 == 0:
+        ctx['zero'] = ctx.get('zero', 0) + 1
+        return 0
       return (ctx['seed'] * 1000003 + ctx['n'] * 7919) % (1 << 31)
 
     def nval(n):
@@ -964,7 +996,7 @@ class C14(Prop):
         raise ValueError('unknown stage %r' % (st,))
     return op
 
-  def install_recorders(self, op, log):
+  def install_recorders(self, op, log, allow_none=False):
     """Replaces the `random.Random(seed)` of every operation reachable from `op` (symbolic fields and
     the private `_invert_op` of Inversion, which holds a *copy* of the operand) by a RecRandom with
     the same seed."""
@@ -983,9 +1015,11 @@ class C14(Prop):
       seen.add(id(o))
       if getattr(o, '_random', None) is not None and o.sym_hasattr('seed'):
         sd = o.sym_getattr('seed')
-        if sd is None:
+        if sd is None and allow_none:
+          pass             # seed=None: draws from the global module, nothing to record
+        elif sd is None:
           raise ValueError('unseeded operator %r' % o)
-        if o._random is _pyrandom:         # pylint: disable=protected-access
+        elif o._random is _pyrandom:         # pylint: disable=protected-access
           # a seed was given but the object draws from the global `random` module (F90): left as
           # it is, so that the determinism check (two runs, different global seeds) can see it
           unseeded.append(type(o).__name__)
@@ -1029,9 +1063,9 @@ class C14(Prop):
     spec = self.cached_spec(case['spec'])
     pop = [self.build_dna(spec, ind) for ind in case['pop']]
     log = []
-    ctx = {'seed': case.get('seed', 0), 'log': log, 'n': 0}
+    ctx = {'seed': case.get('seed', 0), 'log': log, 'n': 0, 'noseed': bool(case.get('noseed'))}
     op = self.build_case_op(case, ctx)
-    unseeded = self.install_recorders(op, log)
+    unseeded = self.install_recorders(op, log, allow_none=ctx['noseed'])
     _pyrandom.seed(1000003 * gseed + 17)      # a seeded operator must not depend on this
     before = [pg.to_json_str(d) for d in pop]
     ids = {id(d): i for i, d in enumerate(pop)}
@@ -1147,6 +1181,7 @@ class C14(Prop):
       _rec._merge_multi_choice = orig_mm          # pylint: disable=protected-access
     return {'spec': spec, 'pop': pop, 'pop_arg': pop_arg, 'before': before, 'ids': ids, 'log': log,
             'calls': calls, 'out': out, 'err': err, 'unseeded': unseeded, 'mm_paths': mm_paths,
+            'zero_seeds': ctx.get('zero', 0),
             'combos': combos}
 
   def canon_out(self, run):
@@ -1308,26 +1343,33 @@ class C14(Prop):
       if any(id(d) not in ids for d in run['out']):
         fail('pipeline-nonmember', 'a composition of selectors returned a non-member')
     # --- determinism: same seeds, fresh objects ---
-    run2 = self.run_once(case, hook=False, gseed=2)
+    noseed = bool(case.get('noseed'))
+    run2 = self.run_once(case, hook=False, gseed=1 if noseed else 2)
     model2 = self.canon_out(run2)
-    if model2 != model or run2['log'] != run['log']:
+    if noseed:
+      # seed=None is documented as "the global `random` module": `random.seed(s)` then reproduces a run
+      if model2 != model:
+        fail('unseeded-op-ignores-global-random-state',
+             'every seed is None and `random.seed` was given the same value, yet two runs differ: %s vs %s' % (
+                 json.dumps(model)[:300], json.dumps(model2)[:300]))
+    elif model2 != model or run2['log'] != run['log']:
       sig = 'nondeterministic'
       if run['unseeded']:
         sig = 'seeded-op-draws-from-global-random:' + '+'.join(sorted(set(run['unseeded'])))
       fail(sig, 'two runs with equal seeds and inputs (and different states of the global `random` module) '
                 'differ: %s vs %s' % (json.dumps(model)[:300], json.dumps(model2)[:300]))
     # --- a scheduled hyper-parameter is a function of the step, not of the calls made before ---
-    if '"sched"' in json.dumps(case['expr']) and not run['log'] and case.get('step', 0) > 0:
+    if '"sched"' in json.dumps(case['expr']) and not run['log'] and case.get('step', 0) > 0 and not noseed:
       run3 = self.run_once(case, hook=False, warmup=True)
       model3 = self.canon_out(run3)
       if model3 != model:
         fail('schedule-depends-on-call-history',
              'at step %d a fresh operator returns %s, the same operator after calls at steps 0..%d returns %s' % (
                  case['step'], json.dumps(model)[:300], case['step'] - 1, json.dumps(model3)[:300]))
-    has_oo = any(p not in MODEL_PRIMS for p in prims)
+    has_oo = noseed or any(p not in MODEL_PRIMS for p in prims)
     return {'model': None if has_oo else model, 'obs': model, 'oracle': run['log'], 'checks': checks,
             'tainted': tainted, 'n_calls': len(run['calls']), 'n_draws': len(run['log']),
-            'mm_paths': run['mm_paths']}
+            'mm_paths': run['mm_paths'], 'zero_seeds': run.get('zero_seeds', 0)}
 
   # -- the driver level: pg.evolution.Evolution and the shipped algorithms ----------------------
   def build_algo(self, case, log):
@@ -1335,8 +1377,10 @@ class C14(Prop):
     from pyglove.ext.evolution import base
     import pyglove as pg
     a = case['algo']
-    ctx = {'seed': case.get('seed', 0), 'log': log, 'n': 0}
-    sd = case.get('seed', 0) % (1 << 30)
+    ctx = {'seed': case.get('seed', 0), 'log': log, 'n': 0, 'noseed': bool(case.get('noseed'))}
+    sd = 0 if case.get('seed', 0) % 4 == 0 else case.get('seed', 0) % (1 << 30)      # seed 0 is first class
+    if ctx['noseed']:
+      sd = None
     if a[0] == 'evolution':
       rep = self.build_expr(a[1], ctx)
       upd = None if a[3] is None else self.build_expr(a[3], ctx)
@@ -1363,9 +1407,14 @@ class C14(Prop):
     for name in ('reproduction', 'population_update'):
       op = algo.sym_getattr(name)
       if op is not None:
-        self.install_recorders(op, log)
+        self.install_recorders(op, log, allow_none=bool(case.get('noseed')))
     _pyrandom.seed(1000003 * gseed + 29)
     algo.setup(spec)
+    # the initial population comes from `pg.geno.Random(seed)`: its generator exists after setup
+    gen0 = getattr(algo, '_init_population_generator', None)
+    sd0 = gen0.sym_getattr('seed') if gen0 is not None and gen0.sym_hasattr('seed') else None
+    if sd0 is not None and getattr(gen0, '_random', None) is not None and gen0._random is not _pyrandom:   # pylint: disable=protected-access
+      gen0._random = RecRandom(sd0, log)       # pylint: disable=protected-access
     multi = case['algo'][0] == 'nsga2'
     fails = []
     proposed = []          # every DNA object ever proposed (kept alive: identities stay unique)
@@ -1398,27 +1447,39 @@ class C14(Prop):
         algo.feedback(dna, reward)
         check_evaluated('feedback #%d' % (t + 1))
         evaluated.append((dna, pg.to_json_str(dna)))
-        nums, _ = self.flat(dna)
-        trace.append([nums, dna.metadata.get('proposal_id'), dna.metadata.get('generation_id')])
+        nums, bel = self.flat(dna)
+        trace.append({'nums': nums, 'beliefs': bel, 'pid': dna.metadata.get('proposal_id'),
+                      'gen': dna.metadata.get('generation_id'),
+                      'initial': bool(dna.metadata.get('initial_population'))})
     except Exception as ex:       # pylint: disable=broad-except
       err = type(ex).__name__
-    return {'trace': trace, 'err': err, 'draws': len(log)}, fails
+    counters = None
+    if err is None:
+      counters = [algo.num_proposals, algo.num_feedbacks, algo.num_generations, len(algo.population)]
+    return {'trace': trace, 'err': err, 'draws': len(log), 'counters': counters}, fails, log
 
   def impl_evolve(self, case):
-    obs, fails = self.run_evolve(case, 1)
-    obs2, _ = self.run_evolve(case, 2)
+    obs, fails, log = self.run_evolve(case, 1)
+    obs2, _, _ = self.run_evolve(case, 1 if case.get('noseed') else 2)
     if obs2 != obs:
       fails.append({'signature': 'evolve:nondeterministic',
-                    'what': 'two runs of the seeded algorithm differ: %s vs %s' % (
+                    'what': 'two runs of the %s differ: %s vs %s' % (
+                        'algorithm with seed=None under the same `random.seed`' if case.get('noseed')
+                        else 'seeded algorithm under different states of the global `random` module',
                         json.dumps(obs)[:300], json.dumps(obs2)[:300])})
     seen, checks = set(), []
     for f in fails:
       if f['signature'] not in seen:
         seen.add(f['signature'])
         checks.append(f)
-    return {'model': None, 'obs': {'outcome': 'ok' if obs['err'] is None else 'err', 'err': obs['err'],
+    model = None
+    if self.evolve_request(case) is not None and not any(
+        f['signature'] == 'evolve:re-proposed-object' for f in checks):
+      model = {'outcome': 'ok' if obs['err'] is None else 'err', 'err': obs['err'], 'trace': obs['trace'],
+               'counters': obs['counters']}
+    return {'model': model, 'obs': {'outcome': 'ok' if obs['err'] is None else 'err', 'err': obs['err'],
                                    'trace': obs['trace']},
-            'oracle': [], 'checks': checks, 'tainted': False, 'n_calls': 0, 'n_draws': obs['draws'],
+            'oracle': log if model is not None else [], 'checks': checks, 'tainted': False, 'n_calls': 0, 'n_draws': obs['draws'],
             'mm_paths': []}
 
   @staticmethod
@@ -1528,8 +1589,14 @@ class C14(Prop):
   def model_request_with_impl(self, case, out):
     """The oracle stream fed to the model is the PRNG log recorded by the implementation run."""
     if case.get('kind') == 'evolve':
-      return None          # the driver level has no model part: property oracle only
+      req = self.evolve_request(case)
+      if req is None or out.get('model') is None:
+        return None        # nsga2 (global state, multi-objective): property oracle only
+      req['oracle'] = out['oracle']
+      return req
     prims = all_prims(case)
+    if case.get('noseed') or out.get('model') is None:
+      return None
     if any(p not in MODEL_PRIMS for p in prims) or ('stages' not in case and has_inexact_weights(case['expr'])):
       return None
     pop = []
@@ -1542,6 +1609,29 @@ class C14(Prop):
     else:
       req['expr'] = case['expr']
     return req
+
+  @staticmethod
+  def evolve_request(case):
+    """`Evolution(reproduction, population_init=(pg.geno.Random(seed), n0), population_update)` as the
+    model's driver level sees it; the packaged algorithms are their documented pipelines."""
+    a = case['algo']
+    if case.get('noseed'):
+      return None
+    if a[0] == 'evolution':
+      ev = {'rep': a[1], 'upd': a[3], 'n0': a[2]}
+    elif a[0] == 'regularized':
+      # Random(tournament) >> Top(1) >> mutator; init = population size; update = Last(population size)
+      ev = {'rep': ['seq', ['seq', ['prim', 'selRandom', a[3], False], ['prim', 'selTop', 1]], a[1]],
+            'upd': ['prim', 'selLast', a[2]], 'n0': a[2]}
+    elif a[0] == 'hill_climb':
+      # Top(1) >> (mutator * batch); update = Top(1)
+      ev = {'rep': ['seq', ['prim', 'selTop', 1], ['repeat', a[1], a[2]]], 'upd': ['prim', 'selTop', 1],
+            'n0': a[3]}
+    else:
+      return None
+    rounds = case['rounds']
+    rewards = [case['rewards'][t % len(case['rewards'])] for t in range(rounds)]
+    return {'spec': case['spec'], 'evolve': ev, 'rewards': rewards}
 
   @staticmethod
   def positional_beliefs(spec, nums):
@@ -1571,7 +1661,39 @@ class C14(Prop):
     if 'err' in model_out:
       if model_out['err'] == 'unmodelled':
         return None
+      if case.get('kind') == 'evolve':
+        e = a['err'] if a['err'] in ERR_NAMES or a['err'] is None else 'Other:' + a['err']
+        if a['outcome'] == 'err' and e == model_out['err']:
+          return None
+        return 'impl %s (after %d rounds), model raises %s' % (
+            'raised ' + str(a['err']) if a['outcome'] == 'err' else 'completed', len(a['trace']), model_out['err'])
       b = {'outcome': 'err', 'err': model_out['err']}
+    elif case.get('kind') == 'evolve':
+      def fr(x):
+        if isinstance(x, list):
+          return str(Fraction(x[1], x[2]) if x[0] == 'q' else Fraction(x[0], 1 << x[1]))
+        return x
+      if a['outcome'] != 'ok':
+        return 'impl raised %s after %d rounds, the model completed %d rounds' % (
+            a['err'], len(a['trace']), len(model_out.get('trace', [])))
+      if model_out.get('left'):
+        return 'model left %d recorded draws unused' % model_out['left']
+      ta = [{'nums': [fr(x) for x in t['nums']], 'beliefs': t['beliefs'], 'pid': t['pid'], 'gen': t['gen'],
+             'initial': t['initial']} for t in a['trace']]
+      tb = [{'nums': [fr(x) for x in t['nums']], 'beliefs': t['beliefs'], 'pid': t['pid'], 'gen': t['gen'],
+             'initial': t['initial']} for t in model_out['trace']]
+      for i, (x, y) in enumerate(zip(ta, tb)):
+        if x != y:
+          return 'round %d: impl proposed %s, model %s' % (i + 1, json.dumps(x), json.dumps(y))
+      if len(ta) != len(tb):
+        return 'impl ran %d rounds, model %d' % (len(ta), len(tb))
+      if a['counters'] != model_out.get('nums'):
+        return 'counters (proposals, feedbacks, generations, |population|): impl %s model %s' % (
+            a['counters'], model_out.get('nums'))
+      bad = [i + 1 for i, t in enumerate(model_out['trace']) if not t.get('valid')]
+      if bad:
+        return 'model proposals %s are not valid for the space' % bad
+      return None
     elif 'stages' in case:
       def norm(o):
         if 'list' in o:
@@ -1655,7 +1777,12 @@ class C14(Prop):
       a = case['algo']
       h = ['evolve:' + a[0], 'evolve-outcome:' + (out['obs']['outcome'] if out['obs']['outcome'] == 'ok'
                                                     else 'err:' + str(out['obs']['err'])),
-           'evolve-rounds:%d' % len(out['obs']['trace']), 'oracle-only(no model part)']
+           'evolve-rounds:%d' % len(out['obs']['trace']),
+           'oracle-only(no model part)' if out.get('model') is None else 'evolve:compared-with-driver-model']
+      if case.get('noseed'):
+        h.append('seed=None(global random)')
+      elif case.get('seed', 0) % 4 == 0:
+        h.append('operator-with-seed-0')
       for pname in sorted(set(expr_prims(a[1]))):
         h.append('evolve-stage-prim:' + pname)
       if not set(expr_prims(a[1])) & {'mutUniform', 'mutSwap', 'recUniform', 'recSample', 'recKPoint', 'recOrder',
@@ -1675,6 +1802,10 @@ class C14(Prop):
         h.append('spec:' + k)
     for p in sorted(set(all_prims(case))):
       h.append('prim:' + p)
+    if out.get('zero_seeds'):
+      h.append('operator-with-seed-0')
+    if case.get('noseed'):
+      h.append('seed=None(global random)')
     if '"kinds"' in json.dumps(case['expr']) or '"valueLt"' in json.dumps(case['expr']) or '"indexEq"' in json.dumps(case['expr']) or '"valueEq"' in json.dumps(case['expr']):
       h.append('mutator-with-where-filter')
     for st in case.get('stages', []):
